@@ -37,7 +37,17 @@ INV_UNITS = set(INV_CONE)
 
 # obligations that exist only because of one property's statement carry meta["props"]; everything else in a unit of
 # the cone counts for every property listed here
+WRAPPERS6 = ["decorate_with_checker/wrapper[sync]", "decorate_with_checker/wrapper[async]", "_decorate_with_invariants/wrapper[0]",
+             "_decorate_with_invariants/wrapper[1]", "_decorate_with_invariants/wrapper[2]", "_decorate_new_with_invariants/wrapper"]
+
 PROPS = {
+    "C12": dict(units=WRAPPERS6, replay="ctx", hints=[], level="other",
+                explanation="Deductive verification does not range over schedules. Proved for all six wrappers, for every path: (O1) the "
+                "wrapper writes no shared state other than the binding of the context variable (frame over every heap field); (O2') it "
+                "never mutates a set object in place (no add/discard on an object that existed before the call; the set field of every "
+                "pre-existing object is unchanged) and restores the binding on every exit. Reduction to the property (paper, DESIGN.md "
+                "section 8 C12, an unchecked assumption): contextvars gives each thread/task its own binding; a copied context shares "
+                "only immutable objects; hence steps of other contexts cannot change what this call reads."),
     "C05": dict(units=["kwargs_from_call", "resolve_kwdefaults", "decorate_with_checker", "select_condition_kwargs", "select_capture_kwargs",
                        "select_error_kwargs", "decorate_with_checker/wrapper[sync]", "decorate_with_checker/wrapper[async]"],
                 theorems=[theorems.verify_C05], replay="bind", hints=[]),
